@@ -43,7 +43,9 @@ TRUSTED_BASE = [
 ]
 ASSUMPTIONS = ['EnergyPlus writes ReportData in time order and, inside one time index, in dictionary-index order',
                'monthly Time rows carry the last day of their month (as in the shipped eplusout_openstudio.sql)',
-               'energy is reported in J (an output already in kWh is not generated)']
+               'energy is reported in J (an output already in kWh is not generated)',
+               'the repairs fixes/C19_*.patch are part of the code under test (the model describes the '
+               'repaired behaviour)']
 
 SCHEMA = [
     'CREATE TABLE Simulations (SimulationIndex INTEGER PRIMARY KEY, EnergyPlusVersion TEXT, TimeStamp TEXT, '
@@ -514,7 +516,8 @@ def fixed_specs():
 
 
 def finding_specs():
-    """Database descriptions that exhibit the recorded findings (known_findings.d/C19.json)."""
+    """Database descriptions of the defects found by this check: `mixed-multi` is still recorded in
+    known_findings.d/C19.json, the others were repaired (fixes/C19_*.patch) and stay as regression cases."""
     def out(name, units, freq, keys, group='Zone'):
         return [name, group, units, freq, keys]
     k2 = [[7, 'ZONE_1'], [9, 'ZONE_2']]
@@ -632,7 +635,7 @@ def correspondence(ctx):
 
     # --- _extract_run_period on pairs of Time rows (boundary dates, malformed rows)
     pr = []
-    for _ in range(ctx.n(600, 8000)):
+    for _ in range(ctx.n(400, 8000)):
         it = rng.choice([-1, -1, 0, 1, 1, 2, 2, 3, 3, 4, 5, 6, 7])
         iv = rng.choice(STEPS + [7, 8, 9, 60, 60, 0]) if it <= 1 else rng.choice([1440, 44640, 60, 0])
         y = rng.choice([0, 2016, 2017, 2020, 2100, 2006, 1900, 4])
@@ -678,7 +681,7 @@ def correspondence(ctx):
 
     # --- whole queries on synthetic databases
     specs = fixed_specs() + [s for _, s in sorted(finding_specs().items())]
-    for _ in range(ctx.n(70, 900)):
+    for _ in range(ctx.n(40, 900)):
         specs.append(gen_spec(rng, big=not ctx.quick and rng.random() < 0.1))
     qall, qrp, qvals = [], [], []
     for s in specs:
@@ -1052,12 +1055,13 @@ def check_case(op, inp):
         for f in order:
             want = [d for d in groups[f] if d['env'] == env]
             if want and want[0]['cls'] == 'annual':
-                cols = [list(x) for x in res]
-                w = [d['values'] for d in want]
-                if sorted(cols) == sorted(w) or (len(cols) == len(w) and all(
-                        _close(a, b, False) for a, b in zip(sorted(cols), sorted(w)))):
+                if not (isinstance(res, list) and all(isinstance(v, float) for v in res)):
+                    problems.append((f, ('class', 'annual data must come back as values')))
+                    continue
+                w = [d['values'][0] for d in want]
+                if _close(sorted(res), sorted(w), False):
                     return None
-                problems.append((f, ('values', 'annual values %s, want %s' % (cols[:3], w[:3]))))
+                problems.append((f, ('values', 'annual values %s, want %s' % (res[:4], w[:4]))))
                 continue
             if not (isinstance(res, list) and all(hasattr(x, 'header') for x in res)):
                 problems.append((f, ('class', 'expected collections')))
@@ -1139,12 +1143,22 @@ def finding_cases():
     S = finding_specs()
     lights, mrt = 'Zone Lights Electric Energy', 'Zone Mean Radiant Temperature'
     return [
+        ('collections', {'db': S['mixed-multi'], 'q': lights}),
+    ]
+
+
+def regression_cases():
+    """(op, input) pairs on which the code failed before the repairs fixes/C19_*.patch."""
+    S = finding_specs()
+    lights, mrt = 'Zone Lights Electric Energy', 'Zone Mean Radiant Temperature'
+    return [
         ('collections', {'db': S['mixed-units'], 'q': [lights, mrt]}),
+        ('collections', {'db': S['mixed-units'], 'q': [mrt, lights]}),
         ('run_period', {'db': S['single-key'], 'q': 'Site Outdoor Air Drybulb Temperature', 'env': 8}),
         ('collections', {'db': S['feb29'], 'q': lights}),
+        ('run_period', {'db': S['feb29'], 'q': lights, 'env': 8}),
         ('collections', {'db': S['annual-multi'], 'q': lights}),
         ('run_period', {'db': S['annual-multi'], 'q': lights, 'env': 2}),
-        ('collections', {'db': S['mixed-multi'], 'q': lights}),
     ]
 
 
@@ -1160,25 +1174,7 @@ def _regions(spec, q, op):
     sel = [o for o in outs if o[3] == f0]
     nkeys = sum(len(o[4]) for o in sel)
     reg = []
-    leap = calendar.isleap(spec['year'])
     multi = len(spec['envs']) > 1
-    if leap:
-        for env, kind, m0, d0, nd in spec['envs']:
-            if kind == 'rp':
-                a = date(spec['year'], m0, d0)
-                b = a + timedelta(days=nd - 1)
-                if (a.month, a.day) == (2, 29) or (b.month, b.day) == (2, 29) or \
-                        ('monthly' in spec['freqs'] and a <= date(spec['year'], 2, 29) and b.month == 2):
-                    reg.append('feb29')
-    if len(set(o[2] for o in sel)) > 1:
-        reg.append('mixed-units')
-    if op == 'run_period' and nkeys == 1:
-        reg.append('single-key')
-    if f0 in ('run', 'annual'):
-        if op == 'run_period':
-            reg.append('annual-run-period')
-        elif multi:
-            reg.append('annual-multi')
     if multi and len(spec['freqs']) > 1:
         reg.append('mixed-multi')
     return reg
@@ -1188,11 +1184,11 @@ def _oracle_cases(ctx):
     rng = ctx.rng
     fixed = fixed_specs() + [s for _, s in sorted(finding_specs().items())]
     specs = list(fixed)
-    n = ctx.n(60, 700) * (3 if ctx.searching else 1)
+    n = ctx.n(36, 700) * (3 if ctx.searching else 1)
     for _ in range(n):
         specs.append(gen_spec(rng, big=not ctx.quick and rng.random() < 0.1))
     seen = {}
-    for op, inp in finding_cases():
+    for op, inp in finding_cases() + regression_cases():
         yield op, inp
     for si, s in enumerate(specs):
         for q in spec_queries(rng, s):
